@@ -316,6 +316,7 @@ type runner struct {
 	nonTriv bool
 	sig     uint64
 	nOps    int
+	long    bool // long history: thousands of operations, mostly Set and Del
 	pv      any
 	stack   string
 }
@@ -333,7 +334,16 @@ func (r *runner) logf(format string, a ...any) {
 func (r *runner) genOp() *opRec {
 	tp := r.tp
 	o := &opRec{key: keyPool[tp.Choose(r.nKeys)]}
-	switch c := tp.Choose(20); {
+	c := tp.Choose(20)
+	if r.long && r.depth == 0 {
+		// Long histories keep adding and deleting; Clear is rare so that
+		// whatever an implementation accumulates over time is not reset.
+		switch {
+		case c >= 14 && c < 17, c == 17 && !tp.Bool(1, 200), c >= 9 && c < 12:
+			c = 14
+		}
+	}
+	switch {
 	case c < 9:
 		o.kind = opSet
 		r.counter++
@@ -461,6 +471,10 @@ func run(rc *kernel.RunCtx) {
 	r.conf = conf
 	r.nKeys = tp.Range(1, len(keyPool))
 	nOps := tp.Range(1, 40)
+	if r.long = tp.Bool(1, 1000); r.long {
+		nOps = tp.Range(1500, 9000)
+		rc.Stats.Probe("long-history")
+	}
 	r.logf("config MaxSize=%d MaxElementSize=%d MaxCount=%d LRU=%v OnDelete=%v reentrant=%v keys=%d ops=%d",
 		conf.MaxSize, conf.MaxElementSize, conf.MaxCount, conf.EnableLRU, conf.OnDelete != nil, r.reent, r.nKeys, nOps)
 	r.sig = kernel.HashBytes(r.sig, []byte(fmt.Sprint(conf.MaxSize, conf.MaxElementSize, conf.MaxCount, conf.EnableLRU, conf.OnDelete != nil, r.reent)))
